@@ -850,10 +850,15 @@ class EffectDomain(DefaultDomain):
 
     NON_EXCEPTION = ("KeyboardInterrupt", "SystemExit", "GeneratorExit")
 
+    invented_bases = {}   # exception class the model invents -> names of its base classes
+
     def _exc_isinstance(self, exc_name, type_names, fr):
         """Is an exception of the class called ``exc_name`` an instance of one of ``type_names``?  None = not decidable."""
         if exc_name in type_names or "BaseException" in type_names or "object" in type_names:
             return True
+        if exc_name in self.invented_bases:
+            # an exception class of the (scripted) user: a subclass of the classes the script says
+            return any(self._exc_isinstance(b, type_names, fr) for b in self.invented_bases[exc_name])
         if "Exception" in type_names and exc_name not in self.NON_EXCEPTION:
             return True
         mod = getattr(fr.func, "_module", None)
@@ -1518,8 +1523,8 @@ class EffectDomain(DefaultDomain):
                 for r in interp.eval(call.args[0], st, fr):
                     if r.kind == "exc":
                         out.append(r)
-                    elif isinstance(r.value, tuple) and len(r.value) >= 2 and r.value[0] == "exc" and isinstance(r.value[1], str):
-                        verdict = self._exc_isinstance(r.value[1], tnames, fr)
+                    elif isinstance(self._as_exc(r.value), tuple) and len(self._as_exc(r.value)) >= 2 and self._as_exc(r.value)[0] == "exc" and isinstance(self._as_exc(r.value)[1], str):
+                        verdict = self._exc_isinstance(self._as_exc(r.value)[1], tnames, fr)
                         if os.environ.get("TTSA_TRACE_ISINSTANCE"):
                             print("ISINSTANCE", r.value, tnames, verdict)
                         if verdict is None:
@@ -1762,12 +1767,26 @@ class EffectDomain(DefaultDomain):
         """<expression with calls>.m(...) whose receiver evaluated to ``receiver``: subclasses with richer objects answer here."""
         return None
 
+    @staticmethod
+    def _as_exc(value):
+        """An instance (made during the run) of an exception class of the repository, seen as the exception it is."""
+        if isinstance(value, tuple) and len(value) == 3 and value[0] == "inst" and hasattr(value[2], "name"):
+            return ("exc", value[2].name)
+        return value
+
     def match(self, handler_type, excvalue, st):
         if handler_type is None:
             return "yes"
         names = [norm(t).split(".")[-1] for t in (handler_type.elts if isinstance(handler_type, ast.Tuple) else [handler_type])]
         if "BaseException" in names:
             return "yes"
+        if isinstance(excvalue, tuple) and len(excvalue) == 3 and excvalue[0] == "inst" and hasattr(excvalue[2], "name"):
+            # an instance of an exception class of the repository: matched through that class's bases
+            ci = excvalue[2]
+            bases = {c.name for c in self.classes.mro(ci)} | {(dotted(b) or "").split(".")[-1] for c in self.classes.mro(ci) for b in c.base_exprs}
+            if bases & set(names) or ("Exception" in names and not bases & set(self.NON_EXCEPTION)):
+                return "yes"
+            return "no"
         if isinstance(excvalue, tuple) and len(excvalue) >= 2 and excvalue[0] == "exc":
             if excvalue[1] in names or ("Exception" in names and excvalue[1] not in ("KeyboardInterrupt", "SystemExit", "GeneratorExit")):
                 return "yes"
@@ -1807,6 +1826,8 @@ def is_generator(func):
 
 def exc_info_of(e):
     """What sys.exc_info() returns while the abstract exception ``e`` is being handled."""
+    if isinstance(e, tuple) and len(e) == 3 and e[0] == "inst" and hasattr(e[2], "name"):
+        return ("tuple", ("excclass", e[2].name), e, ("tbof", e))   # an instance of an exception class of the repository: its class is that class
     return ("tuple", ("typeof", e), e, ("tbof", e))
 
 
